@@ -14,6 +14,8 @@ import time
 
 VERIF = os.path.dirname(os.path.dirname(os.path.abspath(__file__)))
 REPO = os.environ.get("VERIF_REPO", "/repo")
+# evidence/ and replay/ go here; only the self-test redirects it (its scratch-copy runs must not clobber real evidence)
+OUT = os.environ.get("VERIF_OUT", VERIF)
 
 
 class AnalysisError(Exception):
@@ -228,8 +230,8 @@ def write_evidence(ctx, level, explanation, assumptions, violations, known_hits,
         "wall_s": round(time.time() - ctx.t0, 3),
         "violations": violations,
     }
-    os.makedirs(os.path.join(VERIF, "evidence"), exist_ok=True)
-    path = os.path.join(VERIF, "evidence", ctx.prop + ".json")
+    os.makedirs(os.path.join(OUT, "evidence"), exist_ok=True)
+    path = os.path.join(OUT, "evidence", ctx.prop + ".json")
     with open(path, "w") as f:
         json.dump(ev, f, indent=1, sort_keys=False, default=str)
         f.write("\n")
